@@ -40,3 +40,10 @@ for pid in ('C01', 'C06', 'C08', 'C10', 'C12', 'C13', 'C15', 'C18'):
 cs = scen.gen_key_cases(rng, 3000)
 print('key:', scen.check_key_cases(cs, refute.run_cases(cs)))
 print(dict(tot))
+
+# regression corpus: no entry may violate anything on the unchanged tree
+import os
+for f in sorted(os.listdir('/verif/corpus')) if os.path.isdir('/verif/corpus') else []:
+    pid = f.split('.')[0]
+    hit = refute.search_corpus(pid)
+    print('corpus', pid, len(refute.corpus_cases(pid)), 'entries:', 'HIT ' + hit['why'] if hit else 'quiet')
